@@ -33,6 +33,7 @@ NODE = {'authn': build.SAMLP + ':AuthnRequest', 'logout': build.SAMLP + ':Logout
 ROOT = {'authn': 'AuthnRequest', 'logout': 'LogoutRequest', 'attrq': 'AttributeQuery', 'sp-logout': 'LogoutRequest'}
 SPE_ENC = 'https://sp-enconly.verif.example/sp'
 SPE_NOKEY = 'https://sp-nokey.verif.example/sp'
+SPE2 = 'https://sp-second.verif.example/sp'       # a second requester with a signing key of its own (pool 3)
 _ents = {}
 
 
@@ -42,8 +43,9 @@ def receivers(want_signed):
         sp_md = build.entity_xml({'entityid': SPE, 'sp': {'keys': [('signing', 0)], 'acs': [(world.POST, spside.ACS_POST, 0, True)],
                                                           'slo': [(world.REDIRECT, 'https://sp.verif.example/slo'), (world.SOAP, 'https://sp.verif.example/slo/soap')]}})
         # two more requesters the IdP knows: one whose metadata holds an encryption key only, one without any key descriptor
-        sp_md = '<md:EntitiesDescriptor xmlns:md="urn:oasis:names:tc:SAML:2.0:metadata">%s%s%s</md:EntitiesDescriptor>' % (
+        sp_md = '<md:EntitiesDescriptor xmlns:md="urn:oasis:names:tc:SAML:2.0:metadata">%s%s%s%s</md:EntitiesDescriptor>' % (
             sp_md,
+            build.entity_xml({'entityid': SPE2, 'sp': {'keys': [('signing', 3)], 'acs': [(world.POST, spside.ACS_POST, 0, True)], 'slo': [(world.REDIRECT, 'https://sp.verif.example/slo')]}}),
             build.entity_xml({'entityid': SPE_ENC, 'sp': {'keys': [('encryption', 2)], 'acs': [(world.POST, spside.ACS_POST, 0, True)], 'slo': [(world.REDIRECT, 'https://sp.verif.example/slo')]}}),
             build.entity_xml({'entityid': SPE_NOKEY, 'sp': {'keys': [], 'acs': [(world.POST, spside.ACS_POST, 0, True)], 'slo': [(world.REDIRECT, 'https://sp.verif.example/slo')]}}))
         idp = world.make_idp(world.idp_conf(dict(world.DEFAULT_IDP, want_authn_requests_signed=bool(want_signed) and want_signed != 'only-valid-cert',
@@ -69,8 +71,8 @@ TBS = [('authn', 'redirect'), ('authn', 'post'), ('logout', 'redirect'), ('logou
 def case_strategy():
     from hypothesis import strategies as st
     tb = st.sampled_from(TBS)
-    return st.fixed_dictionaries({'tb': tb.map(list), 'signed': st.sampled_from(['no', 'issuer', 'issuer', 'foreign']), 'want_signed': st.sampled_from([False, True, False, True, 'only-valid-cert']), 'mut': st.sampled_from(MUTS),
-                                  'dmode': st.sampled_from(DMODES), 'tz': st.sampled_from([None, None, None, None, 'AAA+12', 'BBB-13']), 'sender': st.sampled_from(['std', 'std', 'std', 'std', 'enc-only', 'no-key']), 'offset': st.sampled_from(OFFSETS), 'near': st.integers(0, 9),
+    return st.fixed_dictionaries({'tb': tb.map(list), 'signed': st.sampled_from(['no', 'issuer', 'issuer', 'foreign', 'peer']), 'want_signed': st.sampled_from([False, True, False, True, 'only-valid-cert']), 'mut': st.sampled_from(MUTS),
+                                  'dmode': st.sampled_from(DMODES), 'tz': st.sampled_from([None, None, None, None, 'AAA+12', 'BBB-13']), 'sender': st.sampled_from(['std', 'std', 'std', 'second', 'second', 'enc-only', 'no-key']), 'offset': st.sampled_from(OFFSETS), 'near': st.integers(0, 9),
                                   'attr': st.sampled_from(['ID', 'IssueInstant', 'Version']), 'garble': st.tuples(st.sampled_from(['truncate', 'flip', 'prefix', 'not-b64', 'empty']), st.integers(1, 200)).map(list),
                                   'script': xmlmut.script_strategy(3), 'alg': st.sampled_from(['sha1', 'sha256', 'sha512']),
                                   'edit': st.sampled_from(['ID', 'Destination', 'AssertionConsumerServiceURL', 'Issuer', 'NameID'])})
@@ -103,6 +105,8 @@ def _run(case):
         sender, skey, trusted = SPE_ENC, 2, []       # signs with the key its metadata lists for encryption only
     elif who == 'no-key':
         sender, skey, trusted = SPE_NOKEY, 0, []
+    elif who == 'second':
+        sender, skey, trusted = SPE2, 3, [3]
     own = ENDPOINTS.get((typ, binding)) or [v for (t, bb), v in sorted(ENDPOINTS.items()) if t == typ][0]     # no endpoint for this binding: an own endpoint of the service
     mut = case['mut']
     fields = {'id': 'id-q-1', 'issue_instant': build.ts(NOW), 'destination': own, 'issuer': sender}
@@ -124,7 +128,8 @@ def _run(case):
     rtyp = typ
     if mut == 'other-type':
         rtyp = {'authn': 'logout', 'logout': 'authn', 'attrq': 'logout', 'sp-logout': 'authn'}[typ]
-    sign_key = {'no': None, 'issuer': skey, 'foreign': 5}[case['signed']]
+    # 'peer': the valid key of another requester the receiver knows (pool 0 is the first SP's, 3 the second's)
+    sign_key = {'no': None, 'issuer': skey, 'foreign': 5, 'peer': 0 if skey != 0 else 3}[case['signed']]
     if sign_key is not None:
         fields['signature'] = build.sig_template(fields['id'], case['alg'], ('x509', world.cert_body(sign_key)))
     xml = render(rtyp, fields)
